@@ -55,10 +55,24 @@ def main():
              "vmap": "int", "allq": 1, "zq": 0, "scale": 1, "asq": "bed3", "mz": [],
              "dump": os.path.join(run.wd, "f%d.bin" % k), "secs": b["secs"], "b": b["b"], "shape": b["shape"], "n": b["n"]}
         cases.append(c)
+    # the same trees with every position multiplied by the largest power of two that keeps the chromosome below 2^32
+    # (coordinates beyond 2^31: span comparisons must be unsigned 32-bit); these copies are only queried
+    import math
+    for c in list(cases)[::2]:
+        L = max(c["chroms"])
+        q = dict(c, scale=2 ** int(math.floor(math.log2((2 ** 32 - 1) / L))), qonly=1)
+        q.pop("dump", None)
+        q["opts"] = dict(c["opts"], zooms=[])
+        cases.append(q)
     obs = run_harness("bbi", cases, run.wd, hang_timeout=20)
     lines, qlines_bw, qlines_bb, owner_bw, owner_bb = [], [], [], [], []
     for k, o in enumerate(obs):
         o.pop("case", None)
+        if o.get("qonly"):
+            q = json.dumps({k2: o[k2] for k2 in ("kind", "chroms", "items", "opts", "obs", "asq", "mz", "scale")}, separators=(",", ":"))
+            (qlines_bw if o["kind"] == "bw" else qlines_bb).append(q)
+            (owner_bw if o["kind"] == "bw" else owner_bb).append(k)
+            continue
         tree = {"error": 1, "nodes": [], "leaves": [], "itemCount": 0, "blockSize": 0, "startChrom": 0, "startBase": 0, "endChrom": 0, "endBase": 0, "present": 1}
         ztree = dict(tree, present=0)
         zsecs = []
@@ -87,8 +101,9 @@ def main():
     bad = validate_obs("Obs_RTree", "Obs.cfg", lines, run.wd, "tree")
     run.drift += len(validate_obs.last_drift)
     run.cov["traces_validated_against_impl"] += len(lines)
+    tree_owner = [k for k, o in enumerate(obs) if not o.get("qonly")]
     for i, tag in bad:
-        o = obs[i]
+        o = obs[tree_owner[i]]
         run.violation("C05 decoded index of the real file: %s (n=%d b=%d shape=%s)" % (tag, o["n"], o["b"], o["shape"]),
                       {"kind": "bbi", "tag": tag, "case": {k: o[k] for k in o if k != "obs"}})
     bad = validate_obs("Obs_BigWig", "Obs.cfg", qlines_bw, run.wd, "qbw", extra_env={"PROP": "C03"})
